@@ -383,6 +383,51 @@ def run(prog: Program, col: Collector, tier: str, refs: Optional[Refs] = None, c
     txt = [norm(n) for n in ast.walk(tf.node) if isinstance(n, ast.If)]
     ok = any("allow_constants" in t for t in txt) and any(isinstance(n, ast.Raise) for i in ast.walk(tf.node) if isinstance(i, ast.If) and "allow_constants" in norm(i.test) for n in i.body)
     col.check(ok, f"{tf.fq}::constants", "array constants captured from the closure are rejected unless allowed", "trace_function no longer rejects captured array constants", tf.loc())
+    # the predicate that rejects captured constants is the predicate that decides what is traced (writer/reader agreement):
+    # a value the tracer treats as variable but that enters the program as a constant would be frozen at its trace-time value
+    filt = None
+    for n in ast.walk(tf.node):
+        if isinstance(n, ast.Call) and refs.resolve(n.func) == "funsor.ops.op.trace_ops" and n.args:
+            filt = norm(n.args[0])
+    guards = []
+    for i in ast.walk(tf.node):
+        if isinstance(i, ast.If) and "allow_constants" in norm(i.test) and any(isinstance(x, ast.Raise) for x in i.body):
+            for c in ast.walk(i.test):
+                if isinstance(c, ast.Call) and isinstance(c.func, ast.Name) and c.func.id != "isinstance":
+                    guards.append(norm(c.func))
+    if filt is None or not guards:
+        col.unresolved(f"{tf.fq}::constant predicate", "trace filter or constant guard not found", tf.loc())
+    else:
+        col.check(all(g == filt for g in guards), f"{tf.fq}::constant predicate", f"constants are rejected by the trace filter `{filt}` itself",
+                  f"captured constants are rejected with `{guards[0]}` but the tracer decides what is variable with `{filt}`: values the tracer follows "
+                  "(tuples of arrays passed to stack / cat / einsum) can be frozen into the program as constants, which then ignores its inputs", tf.loc())
+    # printing an op: its parameters are printed completely and in declaration order, or by name
+    po = prog.funcs.get("funsor.ops.program::_print_op")
+    if po is None:
+        col.unresolved("funsor.ops.program::_print_op", "printer of parametrised ops not found", "")
+    else:
+        gens = [g for g in ast.walk(po.node) if isinstance(g, (ast.GeneratorExp, ast.ListComp)) or (isinstance(g, ast.Call) and norm(g.func) == "map")]
+        verdicts = []
+        for g in gens:
+            if isinstance(g, ast.Call):
+                it = g.args[1] if len(g.args) == 2 else None
+                complete = it is not None and norm(it).endswith(".defaults.values()")
+                verdicts.append(complete)
+            else:
+                gen = g.generators[0]
+                src = norm(gen.iter)
+                if ".defaults" not in src:
+                    continue
+                filtered = bool(gen.ifs)
+                named = any(isinstance(x, ast.Constant) and isinstance(x.value, str) and "=" in x.value for x in ast.walk(g.elt)) and ".items()" in src
+                verdicts.append((not filtered) or named)
+        if not verdicts:
+            col.unresolved(f"{po.fq}::parameters", "no parameter printing found", po.loc())
+        else:
+            col.check(all(verdicts), f"{po.fq}::parameters", "all parameters are printed in declaration order (or by name)",
+                      "a subset of the op's parameters is printed positionally: a later non-default parameter is read back as an earlier one "
+                      "(ClampOp(max=0.5) prints as ClampOp(0.5), i.e. min=0.5)", po.loc())
+
     # ---------------------------------------------------------------- R18.7
     col.rule("R18.7", "what the tracer records for an op call determines the computation that was traced", floor=1)
     _trace_record(prog, col, refs)
